@@ -89,6 +89,13 @@ let dispatch (fn : string) : jv -> jv = match fn with
   | "gss_unframe" -> gss_unframe_j
   | "krb5_token" -> krb5_token_j
   | "krb5_untoken" -> krb5_untoken_j
+  | "spnego_serve_bytes" -> spnego_serve_bytes_j
+  | "spnego_accept_bytes" -> spnego_accept_bytes_j
+  | "spnego_decode" -> spnego_decode_j
+  | "asrep_verify_bytes" -> asrep_verify_bytes_j
+  | "tgsrep_verify_bytes" -> tgsrep_verify_bytes_j
+  | "parse_kdc_rep" -> parse_kdc_rep_j
+  | "dec_enc_der" -> dec_enc_der_j
   | "verify_apreq_bytes" -> verify_apreq_bytes_j
   | "apreq_decode" -> apreq_decode_j
   | "pac_process" -> pac_process_j
